@@ -308,6 +308,8 @@ NETS = {
     "upper-ions": (["S", "S+", "S++", "SI", "SI+", "SIO", "H", "HE", "HE+", "E-", "C", "C+", "CL", "CL+", "MG", "MG+", "HS", "HS+", "CS"], "upper"),
     "excited": (["H2", "H2*", "H", "c-C3H2", "l-C3H", "C", "e-"], "default"),     # F9
     "grain-two-spellings": (["GRAIN", "GRAIN0", "GRAIN-", "H+", "H", "e-"], "default"),  # F10
+    # a metastable atom next to its ground state (O(1D) spelled O*): one element O, not two
+    "excited-atom": (["O", "O*", "H2", "OH", "H", "C", "C*", "e-"], "default"),     # identifiers: F9
     # a reduced depletion model: every molecule only freezes out and desorbs, so a gas species and its ice are connected to exactly
     # the same species - the connectivity key of the ordering ties and only the names decide
     "ice-pairs": (["H2O", "#H2O", "CO", "#CO", "CH4", "#CH4", "NH3", "#NH3", "N2", "#N2"], "default"),
@@ -319,7 +321,7 @@ EXPLICIT = {"ice-pairs": [([x], ["#" + x], 100) for x in ("H2O", "CO", "CH4", "N
 RENDER_REFUSED_OK = set()      # fixed networks whose rendering is refused on the unchanged tree (filled in below, with the reason)
 
 
-def build_net(spec_names, cfgname, rng, explicit=None, desc=None):
+def build_net(spec_names, cfgname, rng, explicit=None, desc=None, force_mode=None):
     """`desc` (a dict) receives what a worker process needs to rebuild the same network"""
     from naunet.network import Network
     from naunet.reactions import Reaction
@@ -338,6 +340,10 @@ def build_net(spec_names, cfgname, rng, explicit=None, desc=None):
         k = rng.randint(1, 2)
         names, held = names[:-k], names[-k:]
         mode = rng.choice(["ctor", "late", "late-after-query"])
+    if force_mode and len(names) >= 4 and not explicit and not held:
+        names, held = names[:-1], names[-1:]
+    if force_mode and held:
+        mode = force_mode           # (three fixed networks always exercise one way each of declaring the extra species)
     raw = []
     for i in range(len(names)):
         a, b = names[i], names[(i + 1) % len(names)]
@@ -382,7 +388,8 @@ def run_c09(argv):
     for label, (names, cfgname) in nets.items():
         try:
             descs[label] = {}
-            net = build_net(names, cfgname, rng, explicit=EXPLICIT.get(label), desc=descs[label])
+            net = build_net(names, cfgname, rng, explicit=EXPLICIT.get(label), desc=descs[label],
+                            force_mode={"labels": "late-after-query", "ions": "late", "ice": "ctor"}.get(label))
         except Exception as e:
             descs.pop(label, None)
             chk.violation({"kind": "build-raised", "net": label}, f"building network {label} raised {e}")
@@ -442,6 +449,12 @@ def run_c09(argv):
             vals = [int(v) for _, v in idx_lines]
             if vals != list(range(len(vals))):
                 chk.violation({"kind": "not-onto", "net": label}, f"index macros are not 0..NSPECIES-1 in order: {vals}", input=show)
+                break
+            # elements: one index each, 0..NELEMENTS-1, no identifier twice (before the identifier checks: a network whose species
+            # identifiers are a known finding still has to number its elements properly)
+            elem_first = [(n, int(v)) for n, v in rd.idx_lines if n.startswith("IDX_ELEM_")]
+            if [v for _, v in elem_first] != list(range(rd.nelem)) or len({n for n, _ in elem_first}) != len(elem_first):
+                chk.violation({"kind": "elements-not-bijective", "net": label}, f"element macros {elem_first} vs NELEMENTS={rd.nelem}", input=show)
                 break
             idents = [n for n, _ in idx_lines]
             illegal = [n for n in idents if not C_IDENT.match(n)]
